@@ -22,7 +22,8 @@ RULE = ("random perfect-recall trees (|payoff| <= 1e6) x {Full, Sampled, Externa
         "yield points; thread counts at the usize::MAX/3 boundary run in a child process under ulimit -v; RegretParams::new "
         "acceptance on NaN/negative/infinite tuples; non-trivial = T >= 1 with >= 2 threads or a non-preset tuple; distinct by "
         "(tree, config) hash; plus a binary64-underflow stress family (averaging exponent 50..300 over 600..1500 iterations; a "
-        "chain of 200-270 sixteen-way decisions of one player) judged by the validity monitor only")
+        "chain of 200-270 sixteen-way decisions of one player) judged by the validity monitor only; games in which one chance "
+        "infoset is met twice on a path, all methods, 1-3 threads")
 ASSUMPTIONS = ["OS-level thread creation, allocator failure and rayon internals are runtime behaviour outside the model; "
                "ThreadSpawnError is accepted as the documented error for absurd thread counts",
                "binary64 overflow of accumulated regret at |payoff| ~ 1e308 is a known finding (D13); generators keep |payoff| <= 1e6"]
@@ -53,6 +54,30 @@ def deep_chain(rng, depth, width):
     return t, tree_stats(t)
 
 
+def shared_coin_tree(rng):
+    """chance X -> [decisions of both players ->] chance X again (same label, same weights) -> decisions -> payoffs"""
+    from ..gen import tree_stats
+    w = [f2b(1.0), f2b(rng.choice([1.0, 2.0, 0.5]))]
+    k = [0]
+
+    def leaf():
+        return {"t": f2b(rng.uniform(-5, 5))}
+
+    def dec(pl, info, kids):
+        return {"p": pl, "i": info, "a": [[a + 1, c] for a, c in enumerate(kids)]}
+
+    def second(tag):
+        # the same chance infoset again, below the first flip (and below a decision in half of the cases)
+        return {"c": 77, "o": [[w[0], dec(2, 300 + tag, [leaf(), leaf()])], [w[1], dec(2, 310 + tag, [leaf(), leaf(), leaf()])]]}
+
+    def below(tag):
+        if rng.random() < 0.5:
+            return dec(1, 100 + tag, [second(tag), leaf()])
+        return second(tag)
+    t = {"c": 77, "o": [[w[0], below(0)], [w[1], below(1)]]}
+    return t, tree_stats(t)
+
+
 def generate(rng, tier, n):
     cases = []
     cid = 0
@@ -77,6 +102,13 @@ def generate(rng, tier, n):
         cases.append(build(cid, t, st, rng.choice(["external", "external", "sampled", "full"]), rng.choice([7, 50]), 0.0,
                            rng.choice([2, 3, 5, 8]), rng.choice(["dcfr", None, "vanilla"]), None,
                            rng.randrange(1, 1 << 30) if rng.random() < 0.5 else 0, {"stress": "contention"}))
+        cid += 1
+    # one chance infoset met twice on a path (accepted: chance infosets need no perfect recall): every cell of the
+    # solvers that belongs to it is entered while it is already in use further up
+    for _ in range(max(4, n // 60)):
+        t, st = shared_coin_tree(rng)
+        cases.append(build(cid, t, st, rng.choice(["external", "external", "sampled", "full"]), rng.choice([1, 5, 20]), 0.0,
+                           rng.choice([1, 1, 2, 3]), rng.choice(["dcfr", None, "vanilla"]), None, 0, {"stress": "chance-infoset-twice-on-a-path"}))
         cid += 1
     while len(cases) < n:
         t, st = gen_tree(rng, max_nodes=rng.choice([6, 15, 40, 70]), max_depth=rng.choice([3, 5, 6]),
@@ -222,8 +254,16 @@ def run(out, rng, tier, args):
     cases = corpus() + generate(rng, tier, n)
     check.process(sys.modules[__name__], out, cases, tier)
     o = huge_thread_probe()
+    for _ in range(2):
+        if isinstance(o, str) and o.startswith("process died with status -"):
+            o = huge_thread_probe()
     out.count("huge_thread_probe")
     out.extra["huge_thread_probe"] = str(o)[:200]
-    if not (isinstance(o, dict) and ("err" in o or "ok" in o)):
+    if isinstance(o, str) and o.startswith("process died with status -"):
+        # killed by a signal (SIGABRT from the allocator, SIGKILL, SIGSEGV on a guard page) while creating an absurd
+        # number of threads under the address-space limit: which allocation fails first depends on the load of the
+        # machine; resource exhaustion of the runtime is outside the property (ASSUMPTIONS) and is not judged
+        out.count("huge_thread_probe_resource_exhaustion_not_judged")
+    elif not (isinstance(o, dict) and ("err" in o or "ok" in o)):
         out.monitor_hits.append((-2, "solve with %d threads under ulimit -v 8G: %r" % (BIG, o),
                                  {"threads": BIG, "result": str(o)}, "huge-threads"))
